@@ -379,5 +379,96 @@ pub fn run(prop: &str, tier: &str, replay: Option<&str>) -> i32 {
         });
         rep.add(sec);
     }
+    {
+        // long texts: every length up to 130 (thorough 300) with ONE character from outside the alphabet at every position, in a
+        // filling of in-alphabet characters, and the filling alone: a validation that works in blocks (16, 32, 64 bytes)
+        // must still see every character
+        let maxlen = if thorough { 300usize } else { 130 };
+        let kinds = [StrKind::Printable, StrKind::Ia5, StrKind::Teletex, StrKind::Bmp, StrKind::Universal];
+        let cases: Vec<(usize, usize)> = (0..kinds.len()).flat_map(|k| (0..=maxlen).map(move |l| (k, l))).collect();
+        let sec = Section::new("sweep/long-texts", &format!("every length 0..={} x every position of one offending character (four per string kind: a control, a non-ASCII letter, a character just outside the alphabet, an astral character) in a filling of admitted characters, for the five restricted types: accepted exactly when the alphabet admits every character", maxlen)).with_deadline(cap);
+        run::sweep_cases(&sec, &cases, &|c| format!("{:?} length {}", kinds[c.0], c.1), &|c| {
+            let mut out = Outcome::default();
+            let k = kinds[c.0];
+            let fill: Vec<char> = match k {
+                StrKind::Bmp => vec!['a', '\u{20ac}', '\u{3042}', '\u{fffd}'],
+                StrKind::Universal => vec!['a', '\u{20ac}', '\u{1f980}', '\u{10ffff}'],
+                _ => vec!['a', 'Z', '0', ' '],
+            };
+            let offenders: Vec<char> = match k {
+                StrKind::Printable => vec!['\n', '\u{e9}', '@', '\u{1f980}'],
+                StrKind::Ia5 => vec!['\u{80}', '\u{e9}', '\u{ff11}', '\u{1f980}'],
+                StrKind::Teletex => vec!['\n', '\u{e9}', '\u{1f}', '\u{1f980}'],
+                StrKind::Bmp => vec!['\u{10000}', '\u{1f980}', '\u{ffff}', '\u{10ffff}'],
+                _ => vec![],
+            };
+            let base: String = (0..c.1).map(|i| fill[i % fill.len()]).collect();
+            judge_text(k, &base, &mut out.findings);
+            out.transitions += 1;
+            for off in &offenders {
+                for pos in 0..c.1 {
+                    let t: String = base.chars().enumerate().map(|(i, ch)| if i == pos { *off } else { ch }).collect();
+                    judge_text(k, &t, &mut out.findings);
+                    out.transitions += 1;
+                    if out.findings.len() > 3 {
+                        break;
+                    }
+                }
+            }
+            out.findings.truncate(3);
+            out.digest = fnv(format!("{:?}{}", k, c.1).as_bytes());
+            out
+        });
+        rep.add(sec);
+        // long byte inputs: every number of code units up to 40 with ONE ill-formed unit at every position, under six fillings
+        // (a shortcut over blocks of units must not let a surrogate or an out-of-range value hide behind its neighbours)
+        let maxunits = if thorough { 80usize } else { 40 };
+        let fills32: [u32; 6] = [0x61, 0x20ac, 0x3042, 0xe000, 0xfffd, 0x10ffff];
+        let bad32: [u32; 5] = [0xd800, 0xdfff, 0x110000, 0xffff_ffff, 0x8000_0061];
+        let fills16: [u16; 5] = [0x61, 0x20ac, 0x3042, 0xe000, 0xfffd];
+        let bad16: [u16; 4] = [0xd800, 0xdbff, 0xdc00, 0xffff];
+        let cases: Vec<(usize, usize)> = (0..=maxunits).flat_map(|l| (0..6usize).map(move |f| (l, f))).collect();
+        let sec = Section::new("sweep/long-byte-inputs", &format!("0..={} code units under 6 (UTF-32) / 5 (UTF-16) fillings with one ill-formed unit (lone surrogates, U+110000, 0xFFFFFFFF, a high bit; U+FFFF for BMP) at every position, and the filling alone, through from_utf32be and from_utf16be", maxunits)).with_deadline(cap);
+        run::sweep_cases(&sec, &cases, &|c| format!("{} units, filling #{}", c.0, c.1), &|c| {
+            let mut out = Outcome::default();
+            let (l, f) = *c;
+            let units32: Vec<u32> = (0..l).map(|i| if i % 3 == 2 { 0x61 } else { fills32[f] }).collect();
+            let enc32 = |u: &[u32]| u.iter().flat_map(|x| x.to_be_bytes()).collect::<Vec<u8>>();
+            if let Some(x) = judge32(&enc32(&units32)) {
+                out.findings.push(x);
+            }
+            for b in bad32 {
+                for pos in 0..l {
+                    let mut u = units32.clone();
+                    u[pos] = b;
+                    out.transitions += 1;
+                    if let Some(x) = judge32(&enc32(&u)) {
+                        out.findings.push(x);
+                    }
+                }
+            }
+            if f < fills16.len() {
+                let units16: Vec<u16> = (0..l).map(|i| if i % 3 == 2 { 0x61 } else { fills16[f] }).collect();
+                let enc16 = |u: &[u16]| u.iter().flat_map(|x| x.to_be_bytes()).collect::<Vec<u8>>();
+                if let Some(x) = judge16(&enc16(&units16)) {
+                    out.findings.push(x);
+                }
+                for b in bad16 {
+                    for pos in 0..l {
+                        let mut u = units16.clone();
+                        u[pos] = b;
+                        out.transitions += 1;
+                        if let Some(x) = judge16(&enc16(&u)) {
+                            out.findings.push(x);
+                        }
+                    }
+                }
+            }
+            out.findings.truncate(3);
+            out.digest = fnv(format!("{:?}", c).as_bytes());
+            out
+        });
+        rep.add(sec);
+    }
     run::finish(rep)
 }
